@@ -180,8 +180,10 @@ CLAIMED = {
              "(root_is_merkle_root), hence history independent and equal to the initial root once everything is cleared; get returns "
              "the last value written, KeyError iff that is blank (get_spec); branch(key) is exactly the ideal sibling list and "
              "calc_root(key, value, branch) = root (branch_verifies); set/delete return the updated path hashes root-to-leaf "
-             "(set_returns_path); reading depends on db/root/depth only (from_db_same). The key-size guard 1..32 is C18. The bit order "
-             "of to_int(key) & mask versus the model's bit list is tied by the correspondence (keys differing at every bit position).",
+             "(set_returns_path); reading depends on db/root/depth only (from_db_same). The key-size guard 1..32 is C18. The integer "
+             "bit arithmetic of smt.py as written (to_int, path & target_bit, shifts over reversed(branch)) is transcribed separately "
+             "(Model/SmtInt.lean - this is what runs against the code) and proved equal to the bit-list model (SmtInt.get_agrees, "
+             "set_agrees, calc_root_agrees, bit_is_list_element).",
         technique="Lean 4 proof (representation invariant over a write-log database, induction over histories) + correspondence check",
         design_ref="6/C14"),
     "C15": dict(
@@ -190,8 +192,9 @@ CLAIMED = {
              "bit, its own key, repeats, deletions - with n beyond the first differing bit, is accepted throughout and ends with "
              "the final tree's value, branch and root hash (stream_tracks, update_keeps_sync, in_sync_root); a list that stops short of "
              "the first differing bit is rejected with ValidationError (short_update_rejected) and, the proof being a value in the "
-             "model, unchanged (tied to the code by comparing the proof before/after). Tie: proof value/branch/root after every "
-             "update, all truncation lengths.",
+             "model, unchanged (tied to the code by comparing the proof before/after). The xor / highest-set-bit scan of update() as "
+             "written is proved to be the first differing bit (SmtInt.branch_point_is_first_diff, proof_update_agrees). Tie: proof "
+             "value/branch/root after every update, all truncation lengths.",
         technique="Lean 4 proof (sibling-list update lemma, induction over update streams) + correspondence check",
         design_ref="6/C15"),
     "C17": dict(
